@@ -566,9 +566,9 @@ Lemma escrow_spec_sound st0 st1 origins amt recd rtotal fe fp :
   s_escrow st1 - s_escrow st0 = amt + fe /\
   (s_bonded st0 + s_notbonded st0) - (s_bonded st1 + s_notbonded st1) = amt + fp /\
   (forall d, In d (backers origins) ->
-     holdings st0 d - holdings st1 d = amt_of d recd /\
+     Z.abs (holdings st0 d - holdings st1 d - amt_of d recd) <= inexact_dels st0 d /\
      Z.abs ((holdings st0 d - holdings st1 d) * sum_amt origins - amt_of d origins * amt)
-       <= (count_of d origins + (if d =? last_del origins then Z.of_nat (List.length origins) else 0)) * sum_amt origins).
+       <= (count_of d origins + (if d =? last_del origins then Z.of_nat (List.length origins) else 0) + inexact_dels st0 d) * sum_amt origins).
 Proof.
   unfold escrow_spec. intros H.
   repeat (apply app_nil_both in H; let H1 := fresh "S" in destruct H as [H1 H]).
@@ -578,7 +578,7 @@ Proof.
   repeat split; try assumption.
   - specialize (S1 o H0). apply Z.ltb_lt in S1. exact S1.
   - specialize (S2 o H0). apply existsb_exists in S2. destruct S2 as (x & Hx & Ex). apply Z.eqb_eq in Ex. subst x. exact Hx.
-  - specialize (S5 d H0). apply Z.eqb_eq in S5. exact S5.
+  - specialize (S5 d H0). apply Z.leb_le in S5. exact S5.
   - specialize (S6 d H0). apply Z.leb_le in S6. exact S6.
 Qed.
 
@@ -589,6 +589,21 @@ Proof.
   cbn [c11_check]. unfold escrow_case_spec. intros H.
   apply app_nil_both in H. destruct H as [H _]. apply app_nil_both in H. destruct H as [H1 H2].
   apply spec_if_nil in H1. apply Z.eqb_eq in H1. split; assumption.
+Qed.
+
+(* with every validator at exchange rate one the loss of a backer is exactly what is recorded for it *)
+Lemma inexact_dels_rate_one st d :
+  (forall v, In v (s_vals st) -> v_shares v = v_tokens v * P) -> inexact_dels st d = 0.
+Proof.
+  intros H. unfold inexact_dels.
+  replace (filter _ (s_dels st)) with (@nil dlg); [reflexivity|]. symmetry.
+  induction (s_dels st) as [|x t IH]; [reflexivity|]. cbn [filter].
+  destruct (d_del x =? d); cbn [andb]; [|exact IH].
+  destruct (find_val (d_val x) (s_vals st)) as [v|] eqn:E; [|exact IH].
+  assert (Hin : In v (s_vals st)).
+  { clear -E. induction (s_vals st) as [|y l IHl]; [discriminate|]. cbn [find_val] in E.
+    destruct (v_id y =? d_val x); [injection E as <-; left; reflexivity | right; apply IHl; exact E]. }
+  rewrite (H v Hin), Z.eqb_refl. cbn [negb]. exact IH.
 Qed.
 
 (* ---- witnesses of the defects of the code as found ---------------------------------------------------- *)
